@@ -302,6 +302,29 @@ func driveCancun(seed uint64, n int, size int, em *Emitter) {
 			em.Op("C15", fmt.Sprintf("S gate %s %x", f, op), v)
 		}
 	}
+	// ---- (E) flat fees: TLOAD / TSTORE cost their constant fee whatever gas the frame holds (no stipend sentry: EIP-1153)
+	for _, op := range []byte{opTLOAD, opTSTORE} {
+		need := uint64(3 + 100)
+		code := []byte{opPUSH1, 1, op, opSTOP}
+		if op == opTSTORE {
+			need = 3 + 3 + 100
+			code = []byte{opPUSH1, 7, opPUSH1, 1, op, opSTOP}
+		}
+		for _, g := range []uint64{need - 1, need, need + 1, 500, 2300, 2399, 2400, 2401, need + 2300, need + 2301, 5000, 100000} {
+			em.Reset(fmt.Sprintf("cancun-fee-%x-%d", op, g))
+			sdb := newStateDB()
+			env := newEnv("Cancun", nil, nil, sdb, nil)
+			env.evm.CloseAspectCall()
+			sdb.CreateAccount(contractAddr)
+			sdb.SetCode(contractAddr, code)
+			_, left, err := env.evm.Call(context.Background(), vm.AccountRef(callerAddr), contractAddr, nil, g, new(big.Int))
+			v := fmt.Sprintf("ok:%x", left)
+			if err != nil {
+				v = "err:" + strings.ReplaceAll(err.Error(), " ", "_")
+			}
+			em.Op("C15", fmt.Sprintf("S flatfee %x %x", op, g), v)
+		}
+	}
 	// ---- (D) stack bounds: the instruction runs at every stack height its arity allows, up to the full 1024 items
 	for _, op := range []byte{opTLOAD, opTSTORE, opMCOPY} {
 		for _, h := range []int{0, 1, 2, 3, 4, 1021, 1022, 1023, 1024} {
